@@ -1794,7 +1794,9 @@ class ECDHCipherText(CipherText):
         # unwrap and unpad m
         _m = aes_key_unwrap(z, self.c, default_backend())
 
-        padder = PKCS7(64).unpadder()
+        # RFC 6637 section 8: the block is padded to a multiple of 8 octets, and a sender may pad every block to the
+        # same 40 octets - the pad can be up to the whole length, not just up to 8 octets
+        padder = PKCS7(8 * len(_m)).unpadder()
         return padder.update(_m) + padder.finalize()
 
     def __init__(self):
